@@ -37,11 +37,10 @@ ASSUME = ["mmap windows of the exfile are assumed to succeed in the model (their
           "bitmaps with fewer than 2^32 bits",
           "off_t arguments: every (uint64_t) cast of the public functions is modelled, so negative and huge addresses, hints and "
           "lengths are inside the model; block sizes >= 4 (offset + length in blocks then cannot wrap 64 bits)",
-          "on files with a size limit the scripts do not write, ask for solid space or grow regions by reallocate (these fail at the "
-          "limit by design and leave the new region allocated: notes/fsm.md, deepening round)",
-          "findings whose patch is not committed (realloc, hint, leak: fixes/fsm-realloc-guard.diff, fsm-alloc-overflow.diff, "
-          "fsm-resize-leak.diff) end the script where they are hit and are counted in the distribution; VERIF_FSM_OPEN=<name>|all "
-          "reports them as violations; once the source carries a patch (variant_of_source) its finding is a violation without any switch"]
+          "on files with a size limit the scripts do not write into regions (a write behind the limit fails by design); solid space "
+          "and growing reallocate at the limit are asked for and must fail with nothing left allocated",
+          "the five findings of the deepening rounds (realloc, hint, leak, recheck, solid) are repaired in /repo: the repaired behaviour "
+          "is demanded of every tree under test; the model follows the text of the tree (variant_of_source), the oracle does not"]
 
 
 def check(run):
